@@ -135,6 +135,7 @@ S["C10"] = dict(title="The read routine never wedges: failed connections are lef
   bounds={"quick":"polling loops unwound 24 times; <= 3 ReadSlices calls; 1 truncated packet","thorough":"48 iterations"},
   outside=["true liveness under an adversarial scheduler","wall-clock promptness"])
 S["C12"] = dict(title="Close and Disconnect end the client from any state, promptly and for good", technique=TECH+"; cooperative goroutine model with deadlock detection", harnesses=[
+    H("verifH_C12_closeduringdial", "L12.b' Close/Disconnect issued while ReadSlices is inside a Dialer that ends only with its context (PauseTimeout set but far away): both return, ReadSlices reports ErrClosed, no goroutine left", reach=("closed",)),
     H("verifH_C12_closeduringhandshake", "L12.b Close/Disconnect issued while the handshake reads CONNACK: both return, no goroutine left, signals and semaphores final", reach=("closed",)),
     H("verifH_C12_states", "L12.a/c Close/Disconnect from each sequential state (with pending transfers, a persisted publish whose submission error is unread, a pending subscribe), then every method reports ErrClosed; termCallbacks", T({"wfaults":1}), T({"wfaults":1}, time_sec=2400), ("closed","api-exchange")),
     H("verifH_C12_concurrent", "bounded schedule exploration: Close || Close/Disconnect(nil)/Disconnect(closed quit) || a writer in flight (Write is a scheduling point), <= k preemptions: all return, semaphores closed once, signals final, DISCONNECT last", T({"preempt":1}), T({"preempt":2}, time_sec=2400, maxpaths=3000000), ("end","interrupted")),
